@@ -8,7 +8,7 @@ import (
 
 func init() {
 	checks["counts"] = func(r *report.Run) {
-		for _, sl := range []*slice{sliceControl(), sliceScalar(), sliceAccess(), sliceLoops(), sliceAlloc(), sliceOptim(), sliceNamed(), sliceNestType(), sliceCalls(), sliceKinds()} {
+		for _, sl := range []*slice{sliceControl(), sliceScalar(), sliceAccess(), sliceLoops(), sliceAlloc(), sliceOptim(), sliceNamed(), sliceNestType(), sliceCalls(), sliceKinds(), sliceMembership()} {
 			fmt.Printf("%-8s", sl.name)
 			for n := 1; n <= 9; n++ {
 				var c int64
